@@ -39,7 +39,7 @@ ASSUMPTIONS = ["code outside the traced files is atomic between two pre-emption 
                "request loss/duplication not injected: no property promises idempotent retry",
                "sampling over schedules, not proof; the single-pre-emption sweep is complete only for the sampled request pairs"]
 FAULT_KINDS = ["preemption", "client_disconnect", "step_exception", "invalid_request"]
-PROBES = ["held_stream", "late_close_of_finished_stream", "session_restarted_during_choreography", "invalid_request_sent", "disconnect_mid_stream", "exception_mid_request",
+PROBES = ["held_stream", "late_close_of_finished_stream", "session_restarted_during_choreography", "stepping_without_session", "invalid_request_sent", "disconnect_mid_stream", "exception_mid_request",
           "refused_while_locked", "stream_completed", "preempted_inside_run_step"]
 EXHAUSTIVE = {"quick": False, "thorough": False}
 
@@ -162,7 +162,10 @@ def gen_choreo_pattern(rng):
     """choreographies built around windows in which a lock can be released by the wrong party"""
     step = lambda: {"a": "req", "kind": rng.choice(["run_step", "run_steps", "stream_full"]), "n": 2}
     opt = lambda x: [x] if rng.random() < 0.5 else []
-    k = rng.randrange(4)
+    k = rng.randrange(5)
+    if k == 4:      # stepping requests while the instance has no session, then a new session
+        return ([{"a": "req", "kind": "end_session"}, step()] + opt(step()) + [{"a": "req", "kind": "begin_session"}, step()]
+                + opt({"a": "open", "h": "s0"}) + [step()])
     if k == 0:      # a finished stream is closed late, after another multi-step request took the lock
         return ([{"a": "open", "h": "s0"}, {"a": "read", "h": "s0", "n": None}] + opt({"a": "req", "kind": "new_session"})
                 + [{"a": "open", "h": "s1"}] + opt({"a": "read", "h": "s1", "n": rng.choice([1, 2, 3])})
@@ -203,8 +206,10 @@ def gen_choreo(rng):
             h = rng.choice(unclosed)
             handles[h] = "closed"
             acts.append({"a": "close", "h": h})
-        elif r < 0.66:
+        elif r < 0.63:
             acts.append({"a": "req", "kind": "new_session"})      # end-session followed by begin-session
+        elif r < 0.66:
+            acts.append({"a": "req", "kind": rng.choice(["end_session", "begin_session"])})
         elif r < 0.72:
             acts.append({"a": "req", "kind": rng.choice(["results", "keep_alive"])})
         else:
@@ -284,6 +289,7 @@ def execute_choreo(case):
         held = {}        # name -> dict(resp, it, state, accepted)
         resets = 0
         stepped_any = False
+        has_session = [True]
 
         def in_progress():
             return [h for h, d in held.items() if d["accepted"] and d["state"] == "open"]
@@ -294,9 +300,11 @@ def execute_choreo(case):
             if prog and not refused:
                 res.violate("C18.a-accepted-while-multistep-in-progress", {"action": n, "request": what, "status": status,
                                                                           "in_progress": prog, "choreo": case["choreo"][:n + 1][-6:]})
-            if not prog and not accepted:
+            if not prog and (refused or (has_session[0] and not accepted)):
+                # nothing is in progress: the request must not be refused as locked; with a live session it must be served
+                # (without a session it legitimately fails with "no data")
                 res.violate("C18.f-lock-not-released", {"action": n, "request": what, "status": status, "body": str(body)[:120],
-                                                        "after": [a for a in case["choreo"][:n]][-5:]})
+                                                        "session": has_session[0], "after": [a for a in case["choreo"][:n]][-5:]})
 
         def pull(d, tag):
             prev = w.cur_req
@@ -334,6 +342,21 @@ def execute_choreo(case):
                         except Exception:
                             body = None
                     accepted = rr.status_code == 200 and not (isinstance(body, dict) and "error" in body)
+                    if not has_session[0]:
+                        # without a session the stream cannot step; it must still not leave the lock behind once it ends.
+                        # Drain it right away so that it is not counted as "in progress".
+                        try:
+                            for _ in it:
+                                pass
+                        except Exception:
+                            pass
+                        held[a["h"]] = {"resp": rr, "it": it, "state": "exhausted", "accepted": False}
+                        try:
+                            rr.close()
+                        except Exception:
+                            pass
+                        held[a["h"]]["state"] = "closed"
+                        continue
                     held[a["h"]] = {"resp": rr, "it": it, "state": "open", "accepted": accepted}
                     res.probe("held_stream")
                     judge(n, "stream-steps(open)", rr.status_code, body if body is not None else {}, prog)
@@ -371,8 +394,18 @@ def execute_choreo(case):
                     if kind == "new_session":
                         w.post("/%s/end-session" % inst)
                         w.post("/%s/begin-session" % inst, BEGIN)
+                        has_session[0] = True
                         resets += 1
                         res.probe("session_restarted_during_choreography")
+                    elif kind == "end_session":
+                        w.post("/%s/end-session" % inst)
+                        has_session[0] = False
+                        resets += 1
+                        res.probe("stepping_without_session")
+                    elif kind == "begin_session":
+                        w.post("/%s/begin-session" % inst, BEGIN)
+                        has_session[0] = True
+                        resets += 1
                     elif kind == "results":
                         w.get("/%s/session-results" % inst)
                     elif kind == "keep_alive":
@@ -401,6 +434,8 @@ def execute_choreo(case):
                 if dup:
                     res.violate("C18.c-time-twice", {"times": dup})
             if not res.violations and not in_progress():
+                if not has_session[0]:
+                    w.post("/%s/begin-session" % inst, BEGIN)
                 fr = w.post("/%s/run-step" % inst, {"settings": {}}, tag="followup")
                 if fr.status != 200:
                     res.violate("C18.f-lock-not-released", {"status": fr.status, "body": fr.body, "after": ["choreography"]})
